@@ -43,7 +43,9 @@ use std::collections::{BTreeMap, BTreeSet};
 use std::net::{Ipv4Addr, Ipv6Addr, SocketAddr, SocketAddrV4, SocketAddrV6};
 use std::panic::AssertUnwindSafe;
 
-const VERSIONS: [u32; 4] = [1, 2, 3, 1000];
+/// protocol versions every value is written and read at: 0 (a peer may announce it; behaves like 1),
+/// 1 (= local db version), 2, 3, 1000 (= local) and ProtocolVersion::MAX
+const VERSIONS: [u32; 6] = [0, 1, 2, 3, 1000, u32::MAX];
 const TS_MAX: i64 = 8210266790400;
 const TS_MIN: i64 = -8334601228800;
 
@@ -1445,7 +1447,7 @@ fn kernels(cx: &mut Ctx) {
 					None => layout_fail(cx, "TxKernel", &b, *v),
 				}
 			}
-			if *v == 1 {
+			if *v <= 1 {
 				// reserved bytes of the fixed-size v1 features must be zero
 				let (lo, hi) = match k.features {
 					KernelFeatures::Plain { .. } => (9, 17),
@@ -1457,15 +1459,15 @@ fn kernels(cx: &mut Ctx) {
 					let nz = if cx.rng.chance(1, 2) { 1 } else { cx.rng.range(1, 255) as u8 };
 					match patched(&b, p, &[nz]) {
 						Some(m) => {
-							dec_case::<TxKernel>(cx, 1, true, 'A', &m, None, Expect::Reject, "reserved-bytes");
+							dec_case::<TxKernel>(cx, *v, true, 'A', &m, None, Expect::Reject, "reserved-bytes");
 						}
-						None => layout_fail(cx, "TxKernel", &b, 1),
+						None => layout_fail(cx, "TxKernel", &b, *v),
 					}
 				}
 			}
 			if is_nrd {
 				// relative height outside 1..=WEEK_HEIGHT
-				let off = if *v == 1 { 15 } else { 9 };
+				let off = if *v <= 1 { 15 } else { 9 };
 				for rh in [0u16, 10081, 65535, 20000].iter() {
 					match patched(&b, off, &rh.to_be_bytes()) {
 						Some(m) => {
